@@ -407,6 +407,15 @@ func runC15(col *Collector, tier string, seed int64) {
 	kk := 0
 	batch(vals, func(v string) string { kk++; return fmt.Sprintf("K%d=%s", kk, v) })
 	batch(whole, func(l string) string { return l })
+	// lines that look like shell or dotenv syntax: to ReadEnvFile they are NAME=VALUE lines like any other
+	words := []string{"export", "export ", "export A=b", "export  A=b", "exporter_port=9100", "export=1", "EXPORT A=b", "set A=b", "unset A", "declare -x A=b",
+		"readonly A=b", "local A=b", "env A=b", "A B=c", "A=b C=d", "A = b", " A=b", "A=b ", "\tA=b", "A+=b", "A:=b", "A?=b", "${A}=b", "A=${B:-c}", "a.b=c", "a-b=c", "1A=b",
+		"#A=b", "# export A=b", "//A=b", ";A=b", "[section]", "A: b", "---", "...", "A=b # comment", "A=\"b\" # c", "A='b' 'c'", "A=\\", "A=\\n", "A=b\\", "source other", ". other"}
+	batch(words, func(l string) string { return l })
+	for _, w := range words {
+		envFileModelCase(col, w+"\n")
+		envFileModelCase(col, "X=1\n"+w)
+	}
 	for _, shape := range []string{"null", "str", "num", "bool", "map", "list", "list:str", "list:str,str", "list:num", "list:null", "list:str,null", "list:list", "list:map", "list:bool,str"} {
 		importShapeCase(col, shape)
 	}
